@@ -46,6 +46,8 @@ def show(t):
 
 
 class Eval:
+    helpers: Dict[str, ast.FunctionDef] = {}      # module-level single-return helper functions (inlined at their call sites)
+
     def __init__(self, ctx, rel, qual, flag: bool, self_attrs=None):
         self.ctx, self.rel, self.qual, self.flag = ctx, rel, qual, flag
         self.env: Dict[str, Any] = {}
@@ -55,6 +57,7 @@ class Eval:
         self.problems: List[str] = []
         self.flag_uses: List[str] = []
         self.calls: List[ast.Call] = []
+        self.lambdify_modules: List[Any] = []
 
     # ---- expressions
     def ev(self, n) -> Any:
@@ -189,7 +192,29 @@ class Eval:
         if name == "simplify" and isinstance(n.func, ast.Name):
             return ("SIMPLIFY", args[0]) if args else ("?",)
         if name == "lambdify" and isinstance(n.func, ast.Name):
+            mods = next((self.ev(k.value) for k in n.keywords if k.arg == "modules"), args[2] if len(args) > 2 else ("DEFAULT-MODULES",))
+            self.lambdify_modules.append((mods, n.lineno))
             return ("LAMBDIFY", args[0] if args else ("?",), args[1] if len(args) > 1 else ("?",))
+        if isinstance(n.func, ast.Name) and n.func.id in self.helpers and n.func.id not in self.env:
+            # inline a module-level helper whose body is a single `return <expr>`
+            h = self.helpers[n.func.id]
+            params = [a.arg for a in h.args.args + h.args.kwonlyargs]
+            bound = {}
+            for p, a in zip([a.arg for a in h.args.args], args):
+                bound[p] = a
+            for k in n.keywords:
+                if k.arg in params:
+                    bound[k.arg] = self.ev(k.value)
+            defaults = dict(zip([a.arg for a in h.args.args][len(h.args.args) - len(h.args.defaults):], h.args.defaults))
+            defaults.update({a.arg: d for a, d in zip(h.args.kwonlyargs, h.args.kw_defaults) if d is not None})
+            saved = self.env
+            self.env = dict(saved)
+            for p in params:
+                self.env[p] = bound[p] if p in bound else (self.ev(defaults[p]) if p in defaults else ("MISSING", p))
+            ret = h.body[-1]
+            out = self.ev(ret.value) if isinstance(ret, ast.Return) and ret.value is not None else ("OTHER", "helper")
+            self.env = saved
+            return out
         if name == "ccode" and isinstance(n.func, ast.Name):
             return ("CCODE", args[0]) if args else ("?",)
         if name in ("list", "tuple") and isinstance(n.func, ast.Name) and len(args) == 1:
@@ -354,7 +379,34 @@ def trust_sig(ctx, rel, qual, fn, rule="TRUST-SIG"):
     return n
 
 
+def trust_imports(ctx: core.Ctx, mod: ast.Module, rel, names):
+    """the trusted sympy entry points are sympy's own: imported from sympy and not re-bound / wrapped under the same name.
+    A locally defined printer / simplifier may be correct, but its correctness is outside what this analysis can decide."""
+    ctx.rule("TRUST-IMPORT", "cse / simplify / lambdify / ccode / diff used by the back-ends are the functions imported from sympy")
+    imported = {}
+    for s in mod.body:
+        if isinstance(s, ast.ImportFrom) and s.module and s.module.split(".")[0] == "sympy":
+            for a in s.names:
+                imported[a.asname or a.name] = f"{s.module}.{a.name}"
+    for nm in names:
+        rebound = [s for s in mod.body if (isinstance(s, (ast.FunctionDef, ast.ClassDef)) and s.name == nm)
+                   or (isinstance(s, ast.Assign) and any(isinstance(t, ast.Name) and t.id == nm for t in s.targets))]
+        if nm not in imported:
+            ctx.error(f"{rel}: `{nm}` is not imported from sympy (trusted base left: the correctness of a local `{nm}` cannot be decided statically)")
+        elif rebound:
+            ctx.error(f"{rel}: `{nm}` is imported from sympy but re-bound at line {rebound[0].lineno} (trusted base left: a local wrapper / printer "
+                      f"replaces sympy's `{nm}`; its correctness cannot be decided statically)")
+        else:
+            ctx.oblige("TRUST-IMPORT", rel, f"{nm} = {imported[nm]}", True, file=rel, func="<module>", construct=f"import {nm}")
+    # custom printer classes
+    for c in mod.body:
+        if isinstance(c, ast.ClassDef) and any("Printer" in ast.unparse(b) for b in c.bases):
+            ctx.error(f"{rel}: class {c.name} customises a sympy code printer (line {c.lineno}): what it prints is outside the trusted base and "
+                      f"cannot be decided statically")
+
+
 def check_python_block(ctx: core.Ctx, mod: ast.Module, rel="py/formak/python.py"):
+    trust_imports(ctx, mod, rel, ["cse", "simplify", "lambdify"])
     cls = core.need(core.find_class(mod, "BasicBlock"), "python.BasicBlock")
     init = core.need(core.find_func(cls, "__init__"), "python.BasicBlock.__init__")
     comp = core.need(core.find_func(cls, "_compile"), "python.BasicBlock._compile")
@@ -371,6 +423,8 @@ def check_python_block(ctx: core.Ctx, mod: ast.Module, rel="py/formak/python.py"
             raise core.AnalysisError(f"python.BasicBlock.__init__ does not store its `{need}` parameter in an attribute")
     base = {inv["arglist"]: ("ARGS",), inv["statements"]: ("EXPRS",), inv["config"]: ("CFG",)}
     qual = "BasicBlock._compile"
+    Eval.helpers = {f.name: f for f in mod.body if isinstance(f, ast.FunctionDef) and len([s for s in f.body if not (isinstance(s, ast.Expr)
+                    and isinstance(s.value, ast.Constant))]) == 1 and isinstance(f.body[-1], ast.Return)}
     n1 = 0
     flag_uses = set()
     for flag in (True, False):
@@ -378,6 +432,12 @@ def check_python_block(ctx: core.Ctx, mod: ast.Module, rel="py/formak/python.py"
         for p in e.problems:
             ctx.error(f"{rel}:{qual}: {p}")
         flag_uses |= set(e.flag_uses)
+        mods = {m for m, _ in e.lambdify_modules}
+        okm = mods == {("CFGFIELD", "python_modules")}
+        ctx.oblige("TMP-1", f"{rel}:{qual} [cse={'on' if flag else 'off'}]", f"every lambdify(modules=...) is the configured namespace: {sorted(map(show, mods))}", okm,
+                   file=rel, func=qual, construct=f"lambdify modules cse={flag}",
+                   msg=f"prefix and body callables are compiled against different / non-configured namespaces {sorted(map(show, mods))}: a function the "
+                       f"user overrides in Config.python_modules is evaluated differently inside a shared sub-expression than outside", line=comp.lineno)
         P = ("CSE.P", ("EXPRS",)) if flag else ("EMPTY",)
         B = ("CSE.B", ("EXPRS",)) if flag else ("EXPRS",)
         pre = e.attrs.get("_prefix")
@@ -587,6 +647,7 @@ def _call_args_ok(v, tdict):
 
 # ------------------------------------------------------------------------------------------ cpp.BasicBlock
 def check_cpp_block(ctx: core.Ctx, mod: ast.Module, rel="py/formak/cpp.py"):
+    trust_imports(ctx, mod, rel, ["cse", "simplify", "ccode", "diff"])
     cls = core.need(core.find_class(mod, "BasicBlock"), "cpp.BasicBlock")
     init = core.need(core.find_func(cls, "__init__"), "cpp.BasicBlock.__init__")
     comp = core.need(core.find_func(cls, "compile"), "cpp.BasicBlock.compile")
